@@ -67,18 +67,21 @@ class TaskScheduler(object):
         :param tasks: task to wait for
         :return: ``None``
         """
-        while not task.is_computed():
-            self._execute(task)
-            if task.is_computed():
-                break
-            self._continue_with_batch()
-        if not self._tasks and self.active_task is None:
-            # The outermost computation of this thread has ended. Batches that are still
-            # scheduled can only serve tasks that were abandoned (e.g. their awaiting task was
-            # failed by a context while they were blocked); don't let the next computation
-            # flush them. Every pass of _execute re-schedules the batches of all items that are
-            # still awaited, so nothing that is needed is lost.
-            self._batches.clear()
+        try:
+            while not task.is_computed():
+                self._execute(task)
+                if task.is_computed():
+                    break
+                self._continue_with_batch()
+        finally:
+            if not self._tasks and self.active_task is None:
+                # The outermost computation of this thread has ended (possibly with an exception
+                # escaping the scheduler). Batches that are still scheduled can only serve tasks
+                # that were abandoned (e.g. their awaiting task was failed by a context while
+                # they were blocked); don't let the next computation flush them. Every pass of
+                # _execute re-schedules the batches of all items that are still awaited, so
+                # nothing that is needed is lost.
+                self._batches.clear()
 
     def _execute(self, root_task):
         """Implements task execution loop.
